@@ -1445,6 +1445,10 @@ def rule_P0(ctx, cname, roots, writer, rid='P0'):
             ctx.note('attribute %s.%s is modified but never read by the stepping code: not '
                      'required in the checkpoint' % (cname, a))
             continue
+        if a not in persisted and _is_memo_cache(prog, cname, a):
+            ctx.note('attribute %s.%s is a memoisation cache (only ever set to None or filled '
+                     'under `is None`): re-derivable, not required in the checkpoint' % (cname, a))
+            continue
         n += 1
         exc = P0_EXCEPTIONS.get((cname, a))
         ok = a in persisted or exc is not None
@@ -1545,3 +1549,32 @@ def rule_P8(ctx, rid='P8'):
             dotted(n.func) == 'setattr']
     ctx.ob(rid, 'NeuralNetworkEmulator.read:sweep-restores', bool(sets), r.where(),
            'the reader restores swept attributes by name with setattr')
+
+
+def _is_memo_cache(prog, cname, attr):
+    """Every assignment to self.<attr> in the class is `= None` (invalidation) or is
+    guarded by `self.<attr> is None` (fill on demand)."""
+    cls = prog.classes.get(cname)
+    if cls is None:
+        return False
+    seen = 0
+    for f in cls.methods.values():
+        if not f.self_name:
+            continue
+        cfg = cfg_of(f)
+        for n in walk_no_nested(f.node):
+            if isinstance(n, ast.Assign):
+                for t in n.targets:
+                    if isinstance(t, ast.Attribute) and isinstance(t.value, ast.Name) and \
+                            t.value.id == f.self_name and t.attr == attr and cfg.has(n):
+                        seen += 1
+                        if isinstance(n.value, ast.Constant) and n.value.value is None:
+                            continue
+                        if cfg.has_fact(cfg.node_of(n).id, 'self.%s is None' % attr, True):
+                            continue
+                        return False
+            elif isinstance(n, ast.AugAssign):
+                ra = root_attr(n.target, f.self_name)
+                if ra and ra[0] == attr:
+                    return False
+    return seen >= 2
